@@ -3,7 +3,7 @@
 (* case of the family (model checking: Correct, NoBad, CarrySound, ProbeOnlyExactFit,      *)
 (* NotStuck) and prints every complete behaviour (case, call log, outcome) as one JSON     *)
 (* line - the cases the real helpers are then run on, with the model's expectation.        *)
-EXTENDS IoHelpers, TLC, Json
+EXTENDS IoHelpers, TLC, Json, SequencesExt
 
 CONSTANTS Family,   \* "rte" | "rex" | "rts" | "rtsbig" | "wa" | "wf"
           L         \* maximal script length (including the terminal item)
@@ -88,5 +88,5 @@ Emit ==
                               data |-> IF IdFamily THEN <<>> ELSE case.data,
                               buf |-> IF IdFamily THEN <<>> ELSE vec,
                               calls |-> calls, err |-> ret.err, rn |-> ret.n, blen |-> Len(vec),
-                              pos |-> pos, cap |-> cap])>>)
+                              pos |-> pos, cap |-> cap, acts |-> SetToSeq(acts)])>>)
 =============================================================================
